@@ -42,10 +42,14 @@ type Sys struct {
 	NoExpand func(op drv.Op, got drv.Resp) bool
 	// Skip, if set, lets a check declare a transition outside its property (counted, not
 	// compared, not expanded) after seeing the implementation's response.
-	Skip      func(op drv.Op, got drv.Resp) bool
-	MaxStates int
-	MaxDepth  int
-	Deadline  time.Time
+	Skip func(op drv.Op, got drv.Resp) bool
+	// ContinueAfterKnown keeps observing after an observation read diverged in a way that is a
+	// recorded finding (the state is still not expanded): a recorded finding must not hide a
+	// different divergence of a later read of the same state.
+	ContinueAfterKnown bool
+	MaxStates          int
+	MaxDepth           int
+	Deadline           time.Time
 }
 
 // StateCtx is what OnNewState receives.
@@ -232,10 +236,14 @@ func Explore(s Sys, run *ev.Run) Stats {
 							atomic.AddInt64(&st.ObserveOps, 1)
 							if d := s.compare(ro, g, w); d != nil {
 								sig := s.SigOf(op, d, &ro) + "@" + base(impl.Name())
-								if run.Report(sig, d.String(), Replay{Driver: impl.Name(), System: s.Name, Init: s.Init, History: hist, Op: op, Observe: &ro, Got: g.Short(), Want: w.Short()}) {
+								known := run.Report(sig, d.String(), Replay{Driver: impl.Name(), System: s.Name, Init: s.Init, History: hist, Op: op, Observe: &ro, Got: g.Short(), Want: w.Short()})
+								if known {
 									atomic.AddInt64(&st.SuppressedTr, 1)
 								}
 								bad = true
+								if known && s.ContinueAfterKnown {
+									continue
+								}
 								break
 							}
 						}
